@@ -115,6 +115,8 @@ KeyHex(key) == StripZeros(Hex2(key[4]) \o Hex2(key[3]) \o Hex2(key[2]) \o Hex2(k
 \* name and storage size of a configuration key
 CfgName(key) == IF CfgIdx(key) # {} THEN Defs.cfgdb[CHOOSE i \in CfgIdx(key) : \A j \in CfgIdx(key) : i <= j].n
                 ELSE "CFG_0x" \o KeyHex(key)
+CfgType(key) == IF CfgIdx(key) # {} THEN Defs.cfgdb[CHOOSE i \in CfgIdx(key) : \A j \in CfgIdx(key) : i <= j].t
+                ELSE "X00" \o ToString(StorSize((key[4] \div 16) % 8))
 CfgSize(key) == IF CfgIdx(key) # {} THEN TypeSize(Defs.cfgdb[CHOOSE i \in CfgIdx(key) : \A j \in CfgIdx(key) : i <= j].t)
                 ELSE StorSize((key[4] \div 16) % 8)
 
@@ -130,12 +132,14 @@ CfgItems(P, off, acc) ==
          IN IF sz < 0 THEN [attrs |-> acc, err |-> "cfg-key-size-code"]
             ELSE IF off + 4 + sz > Len(P) THEN [attrs |-> acc, err |-> "cfg-value-truncated"]
             ELSE CfgItems(P, off + 4 + sz,
-                          Append(acc, [n |-> CfgName(key), k |-> "f", v |-> SubSeq(P, off + 5, off + 4 + sz), h |-> <<>>]))
+                          Append(acc, [n |-> CfgName(key), k |-> "f", v |-> SubSeq(P, off + 5, off + 4 + sz), h |-> <<>>,
+                                        t |-> CfgType(key), sc |-> 0]))
 
 (***************************************************************************)
 (* The walk (parse direction).  State: off, attrs, err.                    *)
-(* attrs entries: [n, k, v, h]  k = "f" field (v = bytes) / "x" flag (v =  *)
-(* bits LSB first); h = bytes of a folded-in high precision companion.     *)
+(* attrs entries: [n, k, v, h, t, sc]  k = "f" field (v = bytes) / "x" flag *)
+(* (v = bits LSB first); h = bytes of a folded-in high precision           *)
+(* companion; t = declared type, sc = 1 iff the definition gives a scale.  *)
 (***************************************************************************)
 AttrIdx(attrs, name) == {i \in 1..Len(attrs) : attrs[i].n = name}
 AttrVal(attrs, name) ==    \* integer value of an earlier attribute, -1 if absent or too large
@@ -160,7 +164,7 @@ WalkFlags(flags, i, bits, bo, sfx, acc) ==
              v == IF bo >= Len(bits) THEN [j \in 1..f.s |-> 0]
                   ELSE [j \in 1..f.s |-> IF bo + j <= Len(bits) THEN bits[bo + j] ELSE 0]
              acc2 == IF IsReservedName(f.n) THEN acc
-                     ELSE Append(acc, [n |-> f.n \o sfx, k |-> "x", v |-> v, h |-> <<>>])
+                     ELSE Append(acc, [n |-> f.n \o sfx, k |-> "x", v |-> v, h |-> <<>>, t |-> f.t, sc |-> 0])
          IN WalkFlags(flags, i + 1, bits, bo + f.s, sfx, acc2)
 
 WalkEntry(e, sfx, st, E) ==
@@ -178,7 +182,7 @@ WalkEntry(e, sfx, st, E) ==
                        ELSE LET i == CHOOSE i \in s : \A j \in s : i >= j
                             IN [st EXCEPT !.off = st.off + size, !.attrs[i].h = bytes]
                ELSE [st EXCEPT !.off = st.off + size,
-                               !.attrs = Append(st.attrs, [n |-> name, k |-> "f", v |-> bytes, h |-> <<>>])]
+                               !.attrs = Append(st.attrs, [n |-> name, k |-> "f", v |-> bytes, h |-> <<>>, t |-> e.t, sc |-> e.sc])]
           [] e.k = "b" ->
             LET bytes == Slice(E.P, st.off, st.off + e.s)
                 short == st.off + e.s > Len(E.P)
@@ -187,7 +191,7 @@ WalkEntry(e, sfx, st, E) ==
                     THEN [st EXCEPT !.off = st.off + e.s,
                                     !.attrs = WalkFlags(e.sub, 1, PadBits(bytes, 8 * e.s), 0, sfx, st.attrs)]
                     ELSE [st EXCEPT !.off = st.off + e.s,
-                                    !.attrs = Append(st.attrs, [n |-> e.n \o sfx, k |-> "f", v |-> bytes, h |-> <<>>])]
+                                    !.attrs = Append(st.attrs, [n |-> e.n \o sfx, k |-> "f", v |-> bytes, h |-> <<>>, t |-> e.t, sc |-> 0])]
           [] e.k = "g" ->
             IF IsCfgVal(E.mode, E.cls, E.id) THEN
                 LET r == CfgItems(E.P, st.off, st.attrs)
